@@ -104,6 +104,7 @@ pub fn eval(case: &Case) -> Verdict {
             }
         }
         "parse" => check_parse_range(Kind::from_index(case.i[0] as usize), &case.s[0], &case.s[1]).map(|_| ()),
+        "now_leap" => super::c18::check_now_leap(case.i[0] as i32, case.i[1] as u32, case.i[2] as u32, case.i[3] as u32),
         "decode_int" => super::c15::check_decode_int(Kind::from_index(case.i[0] as usize), case.i[1], case.i[2] as usize).map(|_| ()),
         "ts_add_days" => c08::check_add_days(case.i[0], i2f(case.i[1]), case.i[2] != 0).map(|_| ()),
         "ora_add_days" => super::c16::check_add_days(case.i[0] as u8, case.i[1], i2f(case.i[2])).map(|_| ()),
@@ -357,8 +358,29 @@ pub fn run(ctx: &Ctx) -> (Stats, Report) {
     }
     st.section("deserialized_integers", &mut mark);
 
+    // the clock-reading constructors at both ends of the range and on boundary dates, with the
+    // clock on ordinary instants (decided in C18) and inside a leap second: Err or in range
+    {
+        let c = cal();
+        let mut days: Vec<i32> = crate::pools::date_edges().into_iter().map(|d| d as i32).collect();
+        days.extend([c.first, c.first + 1, c.last - 1, c.last]);
+        for n in days {
+            for (h, mi) in [(23u32, 59u32), (0, 0), (12, 30)] {
+                for us in [1_000_000u32, 1_500_000, 1_999_999] {
+                    st.evaluations += 1;
+                    st.nontrivial_enum += 1;
+                    st.class("clock-constructor-in-a-leap-second");
+                    if let Err(m) = super::c18::check_now_leap(n, h, mi, us) {
+                        st.fail(0, Case::new(P, "now_leap", vec![n as i128, h as i128, mi as i128, us as i128], vec![]), m);
+                    }
+                }
+            }
+        }
+    }
+    st.section("clock_constructors_leap_second", &mut mark);
+
     let rep = Report {
-        rule: format!("Operation table of {} safe public functions (constructors from fields and raw counts, conversions, the whole add/sub family, negation, mul/div by f64, 12 trunc + 12 round on three types, last_day_of_month, extract, Oracle-style operations) x cross products of boundary+seeded operand pools (first operand full pool, later operands small pools / extreme scalars incl. i32::MIN, u32::MAX, NaN, infinities), plus proptest-generated operands per unary/binary row. Oracle: every returned value (also each half of an extracted pair) satisfies the range predicate of its type (whole seconds for the Oracle-style date); rows with an exact integer model must return Ok(exact) iff the exact value is in range (no wrap, no clamp); month arithmetic must match the month model or fail. Parse: speller-built texts at, near and past the range edges must give Err or an in-range value. Deserialize: integers of every width (i8..u128, via serde's de::value deserializers) at the limits and shifted by multiples of 2^8..2^64 must give Err or exactly the in-range value they denote. Non-trivial = result within one unit period of a range edge, or an error outcome; distinct by (row, operands).", ops.len()),
+        rule: format!("Operation table of {} safe public functions (constructors from fields and raw counts, conversions, the whole add/sub family, negation, mul/div by f64, 12 trunc + 12 round on three types, last_day_of_month, extract, Oracle-style operations) x cross products of boundary+seeded operand pools (first operand full pool, later operands small pools / extreme scalars incl. i32::MIN, u32::MAX, NaN, infinities), plus proptest-generated operands per unary/binary row. Oracle: every returned value (also each half of an extracted pair) satisfies the range predicate of its type (whole seconds for the Oracle-style date); rows with an exact integer model must return Ok(exact) iff the exact value is in range (no wrap, no clamp); month arithmetic must match the month model or fail. Parse: speller-built texts at, near and past the range edges must give Err or an in-range value. Deserialize: integers of every width (i8..u128, via serde's de::value deserializers) at the limits and shifted by multiples of 2^8..2^64 must give Err or exactly the in-range value they denote. Clock: now() / try_from(Time) with the injected clock inside a leap second on boundary dates and both range ends must give Err or an in-range value. Non-trivial = result within one unit period of a range edge, or an error outcome; distinct by (row, operands).", ops.len()),
         assumptions: vec!["operands are in-range values (built through the checked constructors); scalar arguments are unrestricted".into()],
         exhaustive: false,
         extra: Default::default(),
